@@ -71,6 +71,9 @@ def make_runner(v, oidc=True, jwt=False):
         R.s.get_endpoint("authorization").resource_indicators_config = {"policy": {"function": validate_resource_indicators_policy, "kwargs": {}}}
         ctx.cdb["client_3"]["resource_indicators"] = {"authorization_code": {}}
     ctx.cdb["client_2"]["add_claims"] = {"always": {"userinfo": ["nickname"]}, "by_scope": {"id_token": True}}
+    # what the library's default configuration gives the ID-token handler: claim specifications that are dictionaries themselves
+    R.sm.token_handler["id_token"].kwargs["base_claims"] = {"email": {"essential": True}, "email_verified": {"essential": True}}
+    R.s.get_endpoint("userinfo").kwargs["base_claims"] = {"email": {"essential": True}, "nickname": None}
     ctx.cdb["client_3"]["userinfo"] = {"policy": {"function": "idpyoidc.server.oidc.userinfo.validate_userinfo_policy", "kwargs": {}}}
     return R
 
@@ -180,6 +183,9 @@ def impl_tandem(c):
         return {"nops": 0, "changes": [], "aliases": [], "probe_equal": True, "probe_diff": [], "hist": [], "setup": pair[1]}
     server, rp, log, files = pair
     R = _S(server)
+    # what the library's default configuration gives the ID-token handler: claim specifications that are dictionaries themselves
+    server.context.session_manager.token_handler["id_token"].kwargs["base_claims"] = {"email": {"essential": True}, "email_verified": {"essential": True}}
+    server.get_endpoint("userinfo").kwargs["base_claims"] = {"email": {"essential": True}, "nickname": None}
 
     def both():
         d = {"op:" + p: heapsnap.canon(v) for p, v in static_roots(R)}
@@ -196,8 +202,15 @@ def impl_tandem(c):
         rm = rng.choice([None, None, "form_post", "fragment"])
         if rm:
             args["response_mode"] = rm
-        if rng.random() < 0.4:
-            args["claims"] = {"userinfo": {"nickname": None}}
+        if rng.random() < 0.6:
+            # the claims parameter in its shapes: null specs, and dict specs (essential / value / values) for claims the provider's
+            # configuration may itself describe with a dict (the ID-token handler's default base_claims do)
+            spec = lambda: rng.choice([None, None, {"essential": True}, {"essential": False}, {"value": "diana@example.org"}, {"values": ["a@example.org", "b@example.org"]}])
+            args["claims"] = rng.choice([
+                {"userinfo": {"nickname": None}},
+                {"id_token": {"email": spec(), "email_verified": spec()}},
+                {"id_token": {"email": spec()}, "userinfo": {"email": spec(), "nickname": spec()}},
+                {"userinfo": {"email_verified": spec(), "name": spec()}, "id_token": {"name": spec()}}])
         try:
             url = rp.init_authorization(req_args=args)
             params, how = tandem.browser(server, url, log)
